@@ -85,6 +85,10 @@ def random_prog(r, nmem=3, nplain=2, nvar=2, hidden_p=0.15, forms=("bare", "bare
         nodes.append({"name": "vs", "kind": "var", "val": {"ka": 2, "kbb": 3, "kccc": 4, "kdddd": 5, "keeeee": 6}, "fromset": True})
         for u in r.sample([n for n in fns if n.get("where") != "init"], min(2, len(fns))):
             u["refs"].append({"to": "vs", "form": "bare"})
+        # ... and a module-level frozenset of strings the functions read (its iteration order depends on the hash seed)
+        nodes.append({"name": "vq", "kind": "var", "val": ["qa", "qbb", "qccc", "qdddd", "qeeeee"], "fromset": True, "isset": True})
+        for u in r.sample([n for n in fns if n.get("where") != "init"], min(2, len(fns))):
+            u["refs"].append({"to": "vq", "form": "bare"})
     # two module-level lambdas used by one function
     if r.random() < lambdas_p:
         user = r.choice([n for n in fns if n.get("where") != "init"])
@@ -103,7 +107,7 @@ def random_prog(r, nmem=3, nplain=2, nvar=2, hidden_p=0.15, forms=("bare", "bare
     if shapes_p:
         for n in fns:
             for q in n["refs"]:
-                if r.random() < shapes_p and q["to"] != "vs":      # (the text of `vs` depends on the hash seed, its value does not)
+                if r.random() < shapes_p and q["to"] not in ("vs", "vq"):      # (the text of `vs` depends on the hash seed, its value does not)
                     q["shape"] = r.choice(SHAPES)
     # (a program with a set-built table must not turn values into text: the text would depend on the hash seed)
     if any(n.get("fromset") for n in nodes):
@@ -187,7 +191,9 @@ def fn_source(n, twin=False, decorate=True):
     lines.append("    acc.append(%d in (7, 8, %d))" % (s["tup"], s["tup"]))
     for r in n["refs"]:
         to = r["to"]
-        if to.startswith("v") or to.startswith("u"):
+        if to == "vq":
+            x = "sorted(vq)"
+        elif to.startswith("v") or to.startswith("u"):
             x = to
         elif r["form"] == "attr":
             x = "_self.%s(a)" % to
@@ -274,6 +280,8 @@ def module_source(prog, twin=False, order=None):
         if n["kind"] == "var":
             if n.get("tuple"):
                 out.append("%s = %r\n" % (n["name"], tuple(n["val"])))
+            elif n.get("isset"):
+                out.append("%s = frozenset({%s})\n" % (n["name"], ", ".join(repr(k) for k in n["val"])))
             elif n.get("fromset"):
                 out.append("%s = {k: len(k) for k in %s}\n" % (n["name"], "{" + ", ".join(repr(k) for k in sorted(n["val"])) + "}"))
             elif n.get("late"):
